@@ -3,7 +3,9 @@
 package ring
 
 import (
+	"context"
 	"errors"
+	"fmt"
 	"time"
 
 	"github.com/go-kit/log"
@@ -15,6 +17,7 @@ import (
 func init() { vfRegisterBubble("HarnessC02_Intersect", HarnessC02_Intersect) }
 
 var vfErrReplica = errors.New("replica failed")
+var vfErrAborted = fmt.Errorf("call aborted: %w", context.Canceled)
 
 func HarnessC02_Intersect() {
 	maxInst := vfParam("inst", 3)
@@ -74,13 +77,23 @@ func HarnessC02_Intersect() {
 		tr = newDefaultResultTracker(rs.Instances, rs.MaxErrors, log.NewNopLogger())
 	}
 	status := make([]int, len(rs.Instances)) // 0 pending, 1 answered, 2 failed
+	errKind := -1
 	for i := range rs.Instances {
 		status[i] = vfChoice("read_"+rs.Instances[i].Id, 3)
 		switch status[i] {
 		case 1:
 			tr.done(&rs.Instances[i], nil)
 		case 2:
-			tr.done(&rs.Instances[i], vfErrReplica)
+			// what kind of error a failed call ends with must not matter: an
+			// ordinary one, or one that wraps context.Canceled (an aborted call)
+			if errKind < 0 {
+				errKind = vfChoice("errkind", 2)
+			}
+			if errKind == 1 {
+				tr.done(&rs.Instances[i], vfErrAborted)
+			} else {
+				tr.done(&rs.Instances[i], vfErrReplica)
+			}
 		}
 	}
 	if tr.failed() || !tr.succeeded() {
